@@ -105,6 +105,8 @@ VAvcC(m, ns, np) == [configuration_version |-> IntF(m, 1, 8), avc_profile_indica
                      avc_level_indication |-> IntF(m, 4, 8), length_size_minus_one |-> IntF(m, 5, 2),
                      sequence_parameter_sets |-> [i \in 1..ns |-> VNal(m, 10 + i, i + 2)],
                      picture_parameter_sets |-> [i \in 1..np |-> VNal(m, 20 + i, i)]]
+VAvcCMany(m, ns, np) == [VAvcC(m, 0, 0) EXCEPT !.sequence_parameter_sets = [i \in 1..ns |-> [bytes |-> <<103, i>>]],
+                                                 !.picture_parameter_sets = [i \in 1..np |-> [bytes |-> <<i>>]]]
 VVisual(m) == [data_reference_index |-> IntF(m, 1, 16), width |-> IntF(m, 2, 16), height |-> IntF(m, 3, 16),
                horizresolution |-> BigF(m, 4, 4), vertresolution |-> BigF(m, 5, 4), frame_count |-> IntF(m, 6, 16), depth |-> IntF(m, 7, 16)]
 VAvc1(m, ns, np) == [avcc |-> VAvcC(m, ns, np)] @@ VVisual(m)
@@ -158,6 +160,10 @@ VMeta(m, kind) == CASE kind = "mdir" -> [kind |-> "Mdir", ilst |-> Some(VIlst(m,
                     [] kind = "mdir-noilst" -> [kind |-> "Mdir", ilst |-> None]
                     [] kind = "unknown" -> [kind |-> "Unknown", hdlr |-> [VHdlr(m, 2) EXCEPT !.handler_type = <<109, 100, 116, 97>>],
                                             data |-> << <<<<107, 101, 121, 115>>, BytesF(m, 3, 5)>>, <<<<105, 108, 115, 116>>, <<>>>> >>]
+                    \* opaque children of a non-'mdir' meta are kept verbatim, a free box among them included
+                    [] kind = "unknown-free" -> [kind |-> "Unknown", hdlr |-> [VHdlr(m, 2) EXCEPT !.handler_type = <<109, 100, 116, 98>>],
+                                                 data |-> << <<<<102, 114, 101, 101>>, BytesF(m, 3, 4)>>, <<<<107, 101, 121, 115>>, BytesF(m, 4, 2)>>,
+                                                             <<<<102, 114, 101, 101>>, <<>>>> >>]
 VUdta(m, kind) == [meta |-> IF kind = "none" THEN None ELSE Some(VMeta(m, kind))]
 VTrak(m, edts, meta) == [tkhd |-> VTkhd(m, 0), edts |-> IF edts THEN Some(VEdts(m, TRUE)) ELSE None,
                          meta |-> IF meta THEN Some(VMeta(m, "mdir")) ELSE None, mdia |-> VMdia(m)]
@@ -202,7 +208,8 @@ ValsOf(t, m) ==
     [] t = "edts" -> {VEdts(m, w) : w \in BOOLEAN}
     [] t = "emsg" -> {VEmsg(m, v, n) : v \in {0, 1}, n \in 0..2}
     [] t = "data" -> {VData(m, ty, n) : ty \in {0, 1, 13, 21}, n \in {0, 1, 4}}
-    [] t = "avcC" -> {VAvcC(m, a, b) : a \in 0..2, b \in 0..2}
+    \* numOfPictureParameterSets is a full byte (numOfSequenceParameterSets has 5 bits): 33 and 255 sets
+    [] t = "avcC" -> {VAvcC(m, a, b) : a \in 0..2, b \in 0..2} \cup {VAvcCMany(m, 31, 33), VAvcCMany(m, 1, 255)}
     [] t = "avc1" -> {VAvc1(m, a, b) : a \in 0..1, b \in 0..1}
     [] t = "hvcC" -> {VHvcC(m, a, b) : a \in 0..2, b \in 0..2}
     [] t = "hev1" -> {VHev1(m, a, b) : a \in 0..1, b \in 0..1}
@@ -216,7 +223,7 @@ ValsOf(t, m) ==
     [] t = "minf" -> {VMinf(m, h) : h \in {"vmhd", "smhd", "none"}}
     [] t = "mdia" -> {VMdia(m)}
     [] t = "ilst" -> {VIlst(m, ks) : ks \in SUBSET {"Title", "Year", "Poster", "Summary"}}
-    [] t = "meta" -> {VMeta(m, k) : k \in {"mdir", "mdir-noilst", "unknown"}}
+    [] t = "meta" -> {VMeta(m, k) : k \in {"mdir", "mdir-noilst", "unknown", "unknown-free"}}
     [] t = "udta" -> {VUdta(m, k) : k \in {"none", "mdir", "unknown"}}
     [] t = "trak" -> {VTrak(m, e, x) : e \in BOOLEAN, x \in BOOLEAN}
     [] t = "mvex" -> {VMvex(m, w) : w \in BOOLEAN}
@@ -242,8 +249,10 @@ Render ==
      \E spare \in {IF SpareOK(ty) THEN WithSpare(enc, 5) ELSE <<>>} :
      \* esds: every descriptor length padded to four bytes (0x80 0x80 0x80 n), as many muxers write it
      \E padded \in {IF ty = "esds" THEN EncEsdsPadded(v) ELSE <<>>} :
+     \E kids \in {IF KidOK(ty) THEN WithKids(ty, enc) ELSE <<>>} :
        out' = [ done |-> TRUE, v |-> v, enc |-> enc, dec |-> dec, large |-> large, spare |-> spare, padded |-> padded,
                 decPadded |-> IF ty = "esds" THEN DecAny(ty, padded, Whole(padded)) ELSE dec,
+                kids |-> kids, decKids |-> IF KidOK(ty) THEN DecAny(ty, kids, Whole(kids)) ELSE dec,
                 decLarge |-> DecAny(ty, large, Whole(large)),
                 decSpare |-> IF SpareOK(ty) THEN DecAny(ty, spare, Whole(spare)) ELSE dec ]
   /\ UNCHANGED <<ty, mode>>
@@ -253,7 +262,7 @@ Spec == Init /\ [][Next]_vars
 \* spec-level theorems over the enumerated space
 RoundTrip == out.done => out.dec = out.v
 SizeExact == out.done => Whole(out.enc).ok /\ Whole(out.enc).s = Len(out.enc) /\ Whole(out.enc).t = CodeOf(ty)
-VariantsAgree == out.done => out.decLarge = out.v /\ out.decSpare = out.v /\ out.decPadded = out.v
+VariantsAgree == out.done => out.decLarge = out.v /\ out.decSpare = out.v /\ out.decPadded = out.v /\ out.decKids = out.v
 
-Emit == out.done => PrintT("CASE " \o ToJson([t |-> ty, mode |-> mode, v |-> out.v, enc |-> out.enc, large |-> out.large, spare |-> out.spare, padded |-> out.padded]))
+Emit == out.done => PrintT("CASE " \o ToJson([t |-> ty, mode |-> mode, v |-> out.v, enc |-> out.enc, large |-> out.large, spare |-> out.spare, padded |-> out.padded, kids |-> out.kids]))
 =============================================================================
